@@ -565,7 +565,7 @@ PROPS["C11"]["level_note"] += (
     "(no modulator, no ticking clock in the premise), paused->playing transitions, streaming sounds, spatial tracks")
 PROPS["C11"]["assumptions"] += [
     "real scenes: every sound has settled volume/rate/panning/fade, immediate start, is paused/stopped or playing inside its documented "
-    "domain (slice inside the data, valid loop) with loop fuel >= sampleRate*|rate|*dt + 1; every effect at rest, reverb initialised "
+    "domain (any slice; loop region absent or non-empty and inside the sound) with loop fuel >= sampleRate*|rate|*dt + 1; every effect at rest, reverb initialised "
     "at >= 196 Hz, delay lines non-empty with scratch >= internal buffer size at every nesting depth, no latched panic; "
     "no modulators, no ticking clock; no command / new resource / dropped handle pending",
 ]
